@@ -294,6 +294,13 @@ class C20(Prop):
         known = self.known_for(f)
         try:
             m.explain()
+            if len(text) % 4 == 0:
+                # the report is built after all requirements were explained: another offline specification (violated
+                # as well) is evaluated and explained before this one's explanation is read
+                other = drive.Mon('dt_off', {'text': '(always (%s >= 100))' % names[-1], 'vars': names})
+                other.evaluate(drive.dt_dataset(data))
+                other.explain()
+                v.info['class:another-object-explained-before-reading'] = 1
             expl = m.spec.explainer.explanations
         except Exception as e:
             v.bad('explain-raises:' + type(e).__name__, '%s data=%s (rho(0)=%r): explain() raised %s: %s' % (
